@@ -192,6 +192,52 @@ func baseIsLocalAlloc(v ssa.Value) bool {
 	return false
 }
 
+// constructionOption: fn is a function literal with the single parameter base (a "functional option" func(*T)), and every
+// call in production code through a function value of that signature hands it a value the calling function has just
+// allocated: the option runs as part of construction only.
+func (w *World) constructionOption(fn *ssa.Function, base ssa.Value) bool {
+	if fn.Parent() == nil || len(fn.Params) != 1 || base != ssa.Value(fn.Params[0]) {
+		return false
+	}
+	sig := fn.Signature
+	if sig.Results().Len() > 1 {
+		return false
+	}
+	sites := 0
+	for _, g := range w.prodFns() {
+		for _, b := range g.Blocks {
+			for _, in := range b.Instrs {
+				var cc *ssa.CallCommon
+				switch x := in.(type) {
+				case *ssa.Call:
+					cc = &x.Call
+				case *ssa.Defer:
+					cc = &x.Call
+				case *ssa.Go:
+					cc = &x.Call
+				default:
+					continue
+				}
+				if cc.IsInvoke() || cc.StaticCallee() != nil {
+					continue
+				}
+				if _, isB := cc.Value.(*ssa.Builtin); isB {
+					continue
+				}
+				cs, ok := cc.Value.Type().Underlying().(*types.Signature)
+				if !ok || !types.Identical(cs, sig) || len(cc.Args) != 1 {
+					continue
+				}
+				sites++
+				if !baseIsLocalAlloc(cc.Args[0]) {
+					return false
+				}
+			}
+		}
+	}
+	return sites > 0
+}
+
 // mapFieldOf: if v is a map value loaded from a struct field, returns that field and the base.
 func mapFieldOf(v ssa.Value) (*types.Var, ssa.Value) {
 	if u, ok := v.(*ssa.UnOp); ok {
@@ -234,7 +280,7 @@ func ruleImmut(w *World, r *Run, rule string, fs []fieldRef) {
 					case *ssa.Store:
 						if fa, ok := x.Addr.(*ssa.FieldAddr); ok && fieldOfAddr(fa) == fv {
 							n++
-							if !baseIsLocalAlloc(fa.X) {
+							if !baseIsLocalAlloc(fa.X) && !w.constructionOption(fn, fa.X) {
 								bad++
 								r.Fail(rule, key, w.pos(x.Pos()), "field "+f.typ+"."+f.field+" is written in "+short(fn.String())+" on a value that function did not construct")
 							}
@@ -458,6 +504,12 @@ func ruleSoleWriter(w *World, r *Run, rule string) {
 						nWrite++
 					}
 					key := short(name) + " | invoked only from Update"
+					// a store that wraps another one: its own implementation of the same interface method hands the call on;
+					// whoever invokes the wrapper does so through the interface and is subject to this rule
+					if meth := implNames[funcName(host)]; (meth == "Set" && name == cSet) || (meth == "WriteOps" && name == cWriteOps) {
+						r.Pass(rule, key+" | delegation inside an implementation of the same method", w.pos(in.Pos()), "")
+						continue
+					}
 					r.Check(w.onlyReachableFrom(fn, map[*ssa.Function]bool{updFn: true}), rule, key, w.pos(in.Pos()), short(name)+" is invoked from "+short(fn.String())+", which is reachable from outside Update; only Update (and helpers private to it) may open a write operation or store a checkpoint")
 				}
 				if what, ok := implNames[name]; ok && w.fn(name) != nil && pkgPathOf(fn) != pkgPathOf(w.fn(name)) {
